@@ -76,6 +76,13 @@ func (pConn *PFCPConn) RemoveSession(session PFCPSession) {
 		}
 	}
 
+	// Return the UE address if the UPF allocated one for this session
+	if pConn.upf != nil && pConn.upf.ippool != nil && pConn.upf.ippool.holds(session.localSEID) {
+		if err := pConn.upf.ippool.DeallocIP(session.localSEID); err != nil {
+			logger.PfcpLog.Errorf("failed to release UE IP of PFCP session: %v", err)
+		}
+	}
+
 	if err := pConn.store.DeleteSession(session.localSEID); err != nil {
 		logger.PfcpLog.Errorf("failed to delete PFCP session from store: %v", err)
 	}
